@@ -182,7 +182,13 @@ func genRounds(r *Rand, nRounds int, eedPct, envPct int, hooks bool) []rRound {
 				n := r.Intn(4)
 				var ms []string
 				for j := 0; j < n; j++ {
-					switch r.Intn(4) {
+					switch r.Intn(7) {
+					case 4:
+						ms = append(ms, fmt.Sprintf("2::old%d", next())) // empty new value
+					case 5:
+						ms = append(ms, fmt.Sprintf("%d:x%d:y", Pick(r, []int{0, 5, 7, 200}), next())) // a type the library does not know
+					case 6:
+						ms = append(ms, fmt.Sprintf("1:%s%d:%s", strings.Repeat("n", 240), next(), strings.Repeat("o", 255))) // longest values
 					case 0:
 						ms = append(ms, fmt.Sprintf("1:db%d:old%d", next(), ri))
 					case 1:
